@@ -495,6 +495,9 @@ class LogicalLinkController(object):
         except sec.EncryptionError:
             self.terminate(reason="encryption error")
             raise SystemExit
+        except Exception:
+            self.terminate(reason="unexpected error")
+            raise
         finally:
             log.debug("llc run loop terminated on initiator")
 
@@ -561,6 +564,9 @@ class LogicalLinkController(object):
         except sec.EncryptionError:
             self.terminate(reason="encryption error")
             raise SystemExit
+        except Exception:
+            self.terminate(reason="unexpected error")
+            raise
         finally:
             log.debug("llc run loop terminated on target")
 
